@@ -52,6 +52,19 @@ func (g *Gen) call(fr *frame, st *State, site ssa.Instruction, cc *ssa.CallCommo
 			}
 			if key == "" {
 				if g.fc != nil && g.fc.OpaqueCalls {
+					// at-call clauses can name a function-typed field: its (signature) parameter names denote the arguments
+					if dn := dynCallName(cc.Value); dn != "" && fr.fc != nil && len(fr.fc.AtCall[dn]) > 0 {
+						avars := map[string]*Value{}
+						sig := cc.Signature()
+						for i, a := range cc.Args {
+							if i < sig.Params().Len() {
+								if n := sig.Params().At(i).Name(); n != "" && n != "_" {
+									avars[n] = g.val(fr, st, a)
+								}
+							}
+						}
+						g.atCallClauses(fr, st, dn, avars)
+					}
 					return g.opaqueCall(fr, st, "call through function value "+exprOr(fr.text[cc.Value], cc.Value.Name()), rt)
 				}
 				g.errorf("%s: call through function value %s (no funcfield binding)", funcKey(fr.fn), exprOr(fr.text[cc.Value], cc.Value.Name()))
@@ -80,23 +93,7 @@ func (g *Gen) call(fr *frame, st *State, site ssa.Instruction, cc *ssa.CallCommo
 				avars[n] = args[k]
 			}
 		}
-		for i, cl := range fr.fc.AtCall[shortName(key)] {
-			nerr := 0
-			env := &Env{g: g, st: st, old: fr.old, vars: map[string]*Value{}, fr: fr, pkgPath: fr.fn.Pkg.Pkg.Path(), inBody: true, bound: avars, quietErrs: &nerr}
-			t := env.evalBool(cl.E)
-			ck := shortName(key) + "." + clauseName(cl, i)
-			if g.atSeen == nil {
-				g.atSeen, g.atSkipped = map[string]int{}, map[string]int{}
-			}
-			if nerr > 0 {
-				// the clause names a local that does not exist on this path (another branch's variable): it does not
-				// apply to this call site. A clause that applies to no site at all is reported as an error.
-				g.atSkipped[ck]++
-				continue
-			}
-			g.atSeen[ck]++
-			g.addOblig(st, "assert", fmt.Sprintf("at.%s.%s", shortName(key), clauseName(cl, i)), t, cl.Src)
-		}
+		g.atCallClauses(fr, st, shortName(key), avars)
 	}
 	fc := g.W.C.Funcs[key]
 	// inline: closures created here, or functions marked inline
@@ -121,6 +118,46 @@ func (g *Gen) call(fr *frame, st *State, site ssa.Instruction, cc *ssa.CallCommo
 		return g.freshValue(st, "r."+shortName(key), rt)
 	}
 	return g.applyContract(fr, st, fc, key, callee, cc, args, rt)
+}
+
+// atCallClauses poses the at-call clauses written for callee name `name` at this call site.
+func (g *Gen) atCallClauses(fr *frame, st *State, name string, avars map[string]*Value) {
+	for i, cl := range fr.fc.AtCall[name] {
+		nerr := 0
+		env := &Env{g: g, st: st, old: fr.old, vars: map[string]*Value{}, fr: fr, pkgPath: fr.fn.Pkg.Pkg.Path(), inBody: true, bound: avars, quietErrs: &nerr}
+		t := env.evalBool(cl.E)
+		ck := name + "." + clauseName(cl, i)
+		if g.atSeen == nil {
+			g.atSeen, g.atSkipped = map[string]int{}, map[string]int{}
+		}
+		if nerr > 0 {
+			// the clause names a local that does not exist on this path (another branch's variable): it does not
+			// apply to this call site. A clause that applies to no site at all is reported as an error.
+			g.atSkipped[ck]++
+			continue
+		}
+		g.atSeen[ck]++
+		g.addOblig(st, "assert", fmt.Sprintf("at.%s.%s", name, clauseName(cl, i)), t, cl.Src)
+	}
+}
+
+// dynCallName: the field name of a call through a function-typed field (x.f(...)), "" otherwise.
+func dynCallName(v ssa.Value) string {
+	if u, ok := v.(*ssa.UnOp); ok {
+		if fa, ok := u.X.(*ssa.FieldAddr); ok {
+			if pt, ok := types.Unalias(fa.X.Type()).Underlying().(*types.Pointer); ok {
+				if stt, ok := types.Unalias(pt.Elem()).Underlying().(*types.Struct); ok && fa.Field < stt.NumFields() {
+					return stt.Field(fa.Field).Name()
+				}
+			}
+		}
+	}
+	if f, ok := v.(*ssa.Field); ok {
+		if stt, ok := types.Unalias(f.X.Type()).Underlying().(*types.Struct); ok && f.Field < stt.NumFields() {
+			return stt.Field(f.Field).Name()
+		}
+	}
+	return ""
 }
 
 func shortKey(k string) string { return strings.ReplaceAll(k, modPath+"/", "") }
